@@ -1,9 +1,79 @@
 import Driver.Util
-open Lean
+import Torf.Spec.FileSize
+open Lean Torf Torf.FileSize
 namespace Driver.C20
 
-/-- ops of property C20: `c20.<name>` -/
-def handle (op : String) (_j : Json) : Except String Json :=
-  throw s!"unknown op {op}"
+def errJson : Err → Json
+  | .read => jarr [jstr "read"]
+  | .size a e => jarr [jstr "verifyFileSize", jnat a, jnat e]
+  | .isDir => jarr [jstr "verifyIsDir"]
+  | .metainfo => jarr [jstr "metainfo"]
+  | .path => jarr [jstr "path"]
+
+def resJson : Res → Json
+  | .ok b => jobj [("ok", jbool b)]
+  | .raised e => jobj [("raised", errJson e)]
+
+def callJson (c : Call) : Json :=
+  jarr [jnat c.idx, jnat c.done, jnat c.total, jopt errJson c.exc]
+
+def outJson (r : Res × List Call) : Json :=
+  jobj [("res", resJson r.1), ("calls", jarr (r.2.map callJson))]
+
+def getStrs (j : Json) (k : String) : Except String (List String) :=
+  (·.toList) <$> j.getObjValAs? (Array String) k
+
+def parseListed (j : Json) : Except String Listed := do
+  return ⟨← getStrs j "path", ← getNat j "size"⟩
+
+def parseEntry (j : Json) : Except String (List String × Entry) := do
+  let p ← getStrs j "path"
+  let kind ← getStr j "kind"
+  let n := (getOptNat j "n").getD 0
+  match kind with
+  | "missing" => return (p, .missing)
+  | "file" => return (p, .file n)
+  | "dir" => return (p, .dir n)
+  | _ => throw s!"unknown entry kind {kind}"
+
+def mkFS (es : List (List String × Entry)) : FS := fun p =>
+  match es.find? (fun e => e.1 == p) with
+  | some e => e.2
+  | none => .missing
+
+/-- plain path components: the string algebra of pathlib is not modelled, so names with a
+    separator, `.`/`..` or the empty string are outside the hypothesis -/
+def plain (s : String) : Bool := s != "" && s != "." && s != ".." && !s.contains '/'
+
+/-- op `c20.verify` : {name, single, length | files, pl, piecesBytes, fs, cb : null | [done…]}
+    ↦ model, spec (both: result + callback trace), hyp = WF ∧ plain components,
+    allGood, presentExact (for the cross-check with the real `verify`) -/
+def verify (j : Json) : Except String Json := do
+  let name ← getStr j "name"
+  let single ← getBool j "single"
+  let mode ← if single then (Mode.single <$> getNat j "length")
+             else (Mode.multi <$> ((← getArr j "files").mapM parseListed))
+  let t : Torrent := ⟨name, mode, ← getNat j "pl", ← getNat j "piecesBytes"⟩
+  let fs := mkFS (← (← getArr j "fs").mapM parseEntry)
+  let cbj ← j.getObjVal? "cb"
+  let cb : Callback ← match cbj with
+    | Json.null => pure none
+    | _ => do
+      let stops ← getNats j "cb"
+      pure (some fun c => stops.contains c.done)
+  let model := verifyFilesize t fs cb
+  let sp := spec t fs cb
+  let hyp := decide (WF t) && plain name && t.listed.all (fun f => f.path.all plain)
+  return jobj [("model", outJson model), ("spec", outJson sp), ("modelEqSpec", jbool (model == sp)),
+               ("hyp", jbool hyp), ("valid", jbool (validateCore t)),
+               ("allGood", jbool (allGood t fs)),
+               ("errs", jarr (t.listed.map fun f => jopt errJson (errOf fs f))),
+               ("singleAtDir", jbool (singleAtDir t fs)),
+               ("presentExact", jbool (allPresentExact t fs))]
+
+def handle (op : String) (j : Json) : Except String Json :=
+  match op with
+  | "c20.verify" => verify j
+  | _ => throw s!"unknown op {op}"
 
 end Driver.C20
